@@ -28,4 +28,196 @@ theorem reattach_length (es : List GEdge) (e a b : Nat) : (reattach es e a b).le
 theorem inverse_length (es : List GEdge) (e : Nat) : (inverse es e).length = es.length := by
   unfold inverse; split <;> simp
 
+theorem idx_get (l : List Nat) (a i : Nat) (h : idx l a = some i) : l[i]? = some a := by
+  induction l generalizing i with
+  | nil => simp [idx] at h
+  | cons y l ih =>
+    simp only [idx] at h
+    split at h
+    · rename_i hy; cases h; simp [hy]
+    · cases hh : idx l a with
+      | none => simp [hh] at h
+      | some j => simp [hh] at h; subst h; simpa using ih j hh
+
+theorem idx_lt (l : List Nat) (a i : Nat) (h : idx l a = some i) : i < l.length := by
+  have := idx_get l a i h
+  exact (List.getElem?_eq_some_iff.mp this).1
+
+theorem idx_set_other (l : List Nat) (a i j v : Nat) (h : idx l a = some i) (hj : j ≠ i) (hv : v ≠ a) :
+    idx (l.set j v) a = some i := by
+  induction l generalizing i j with
+  | nil => simp [idx] at h
+  | cons y l ih =>
+    simp only [idx] at h
+    cases j with
+    | zero =>
+      simp only [List.set_cons_zero, idx, hv, if_false]
+      split at h
+      · cases h; exact absurd rfl hj
+      · exact h
+    | succ j =>
+      simp only [List.set_cons_succ, idx]
+      split at h
+      · rename_i hy; simp [hy]; exact Option.some.inj h
+      · rename_i hy
+        simp only [hy, if_false]
+        cases hh : idx l a with
+        | none => simp [hh] at h
+        | some k =>
+          simp [hh] at h; subst h
+          have : j ≠ k := fun e => hj (by simp [e])
+          simp [ih k j hh this]
+
+theorem idx_set_new (l : List Nat) (v j : Nat) (h : idx l v = none) (hj : j < l.length) :
+    idx (l.set j v) v = some j := by
+  induction l generalizing j with
+  | nil => simp at hj
+  | cons y l ih =>
+    simp only [idx] at h
+    split at h
+    · cases h
+    · rename_i hy
+      cases j with
+      | zero => simp [idx]
+      | succ j =>
+        simp only [List.set_cons_succ, idx, hy, if_false]
+        have hn : idx l v = none := by
+          cases hh : idx l v with
+          | none => rfl
+          | some k => simp [hh] at h
+        simp [ih j hn (by simpa using hj)]
+
+theorem set_same (l : List Nat) (i v : Nat) (h : l[i]? = some v) : l.set i v = l := by
+  have hi := (List.getElem?_eq_some_iff.mp h)
+  rw [← hi.2]; exact List.set_getElem_self hi.1
+
+
+theorem setNeigh_get (ns : List GNode) (x i v y : Nat) :
+    (setNeigh ns x i v)[y]? = if y = x then (ns[y]?).map (fun nd => { nd with neigh := nd.neigh.set i v }) else ns[y]? := by
+  unfold setNeigh
+  split
+  · rename_i nd hnd
+    by_cases hy : y = x
+    · subst hy; simp [hnd, List.getElem?_set_self ((List.getElem?_eq_some_iff.mp hnd).1)]
+    · simp [hy, List.getElem?_set_ne (Ne.symm hy)]
+  · rename_i hnd
+    by_cases hy : y = x
+    · subst hy; simp [hnd]
+    · simp [hy]
+
+theorem setBr_get (ns : List GNode) (x i v y : Nat) :
+    (setBr ns x i v)[y]? = if y = x then (ns[y]?).map (fun nd => { nd with br := nd.br.set i v }) else ns[y]? := by
+  unfold setBr
+  split
+  · rename_i nd hnd
+    by_cases hy : y = x
+    · subst hy; simp [hnd, List.getElem?_set_self ((List.getElem?_eq_some_iff.mp hnd).1)]
+    · simp [hy, List.getElem?_set_ne (Ne.symm hy)]
+  · rename_i hnd
+    by_cases hy : y = x
+    · subst hy; simp [hnd]
+    · simp [hy]
+
+theorem reattach_get (es : List GEdge) (e a b y : Nat) :
+    (reattach es e a b)[y]? = if y = e then (es[y]?).map (fun E => if E.left = a then ⟨b, E.right⟩ else ⟨E.left, b⟩) else es[y]? := by
+  unfold reattach
+  split
+  · rename_i E hE
+    by_cases hy : y = e
+    · subst hy; simp [hE, List.getElem?_set_self ((List.getElem?_eq_some_iff.mp hE).1)]
+    · simp [hy, List.getElem?_set_ne (Ne.symm hy)]
+  · rename_i hE
+    by_cases hy : y = e
+    · subst hy; simp [hE]
+    · simp [hy]
+
+theorem inverse_get (es : List GEdge) (e y : Nat) :
+    (inverse es e)[y]? = if y = e then (es[y]?).map (fun E => ⟨E.right, E.left⟩) else es[y]? := by
+  unfold inverse
+  split
+  · rename_i E hE
+    by_cases hy : y = e
+    · subst hy; simp [hE, List.getElem?_set_self ((List.getElem?_eq_some_iff.mp hE).1)]
+    · simp [hy, List.getElem?_set_ne (Ne.symm hy)]
+  · rename_i hE
+    by_cases hy : y = e
+    · subst hy; simp [hE]
+    · simp [hy]
+
+
+theorem applyCore_eq (g : GHeap) (n : GNNI) (x : Nat) (N1 N2 N12 X : GNode) (i0 i12 i1 i22 i2 e1 e2 ec : Nat) (E1 E2 : GEdge)
+    (hx : x = if n.cross then n.n21 else n.n22)
+    (g1 : g.nodes[n.n1]? = some N1) (g2 : g.nodes[n.n2]? = some N2) (g12 : g.nodes[n.n12]? = some N12) (gx : g.nodes[x]? = some X)
+    (k0 : idx N1.neigh n.n2 = some i0) (k12 : idx N1.neigh n.n12 = some i12) (k1 : idx N12.neigh n.n1 = some i1)
+    (k22 : idx N2.neigh x = some i22) (k2 : idx X.neigh n.n2 = some i2)
+    (b1 : N1.br[i12]? = some e1) (b2 : N2.br[i22]? = some e2) (bc : N1.br[i0]? = some ec)
+    (ge1 : g.edges[e1]? = some E1) (ge2 : g.edges[e2]? = some E2) :
+    applyCore g n = .ok (applyRes g n x i12 i1 i22 i2 e1 e2 ec (decide (E1.right = n.n1 ∨ E2.right = n.n2))) := by
+  subst hx
+  unfold applyCore applyRes
+  simp only [g1, g2, g12, gx, k0, k12, k1, k22, k2, b1, b2, bc, ge1, ge2]
+  by_cases hinv : E1.right = n.n1 ∨ E2.right = n.n2 <;> simp [hinv]
+
+theorem undoCore_eq (g : GHeap) (n : GNNI) (x : Nat) (N1 N2 N12 X : GNode) (i0 i12 i2 i11 i1 e1 e2 ec : Nat) (E1 E2 : GEdge)
+    (hx : x = if n.cross then n.n21 else n.n22)
+    (g1 : g.nodes[n.n1]? = some N1) (g2 : g.nodes[n.n2]? = some N2) (g12 : g.nodes[n.n12]? = some N12) (gx : g.nodes[x]? = some X)
+    (k0 : idx N1.neigh n.n2 = some i0) (k12 : idx N2.neigh n.n12 = some i12) (k2 : idx N12.neigh n.n2 = some i2)
+    (k11 : idx N1.neigh x = some i11) (k1 : idx X.neigh n.n1 = some i1)
+    (b1 : N1.br[i11]? = some e1) (b2 : N2.br[i12]? = some e2) (bc : N1.br[i0]? = some ec)
+    (ge1 : g.edges[e1]? = some E1) (ge2 : g.edges[e2]? = some E2) :
+    undoCore g n = .ok (undoRes g n x i11 i1 i12 i2 e1 e2 ec (decide (E2.right = n.n2 ∨ E1.right = n.n1))) := by
+  subst hx
+  unfold undoCore undoRes
+  simp only [g1, g2, g12, gx, k0, k12, k2, k11, k1, b1, b2, bc, ge1, ge2]
+  by_cases hinv : E2.right = n.n2 ∨ E1.right = n.n1 <;> simp [hinv]
+
+
+theorem nodes_back (g : GHeap) (n : GNNI) (x : Nat) (N1 N2 N12 X : GNode) (i12 i1 i22 i2 e1 e2 ec ec' : Nat) (inv inv' : Bool)
+    (g1 : g.nodes[n.n1]? = some N1) (g2 : g.nodes[n.n2]? = some N2) (g12 : g.nodes[n.n12]? = some N12) (gx : g.nodes[x]? = some X)
+    (d1 : n.n1 ≠ n.n2) (d2 : n.n12 ≠ n.n1) (d3 : n.n12 ≠ n.n2) (d4 : x ≠ n.n1) (d5 : x ≠ n.n2) (d6 : x ≠ n.n12)
+    (k12 : N1.neigh[i12]? = some n.n12) (k1 : N12.neigh[i1]? = some n.n1) (k22 : N2.neigh[i22]? = some x) (k2 : X.neigh[i2]? = some n.n2)
+    (b1 : N1.br[i12]? = some e1) (b2 : N2.br[i22]? = some e2) :
+    (undoRes (applyRes g n x i12 i1 i22 i2 e1 e2 ec inv) n x i12 i2 i22 i1 e2 e1 ec' inv').nodes = g.nodes := by
+  apply List.ext_getElem?
+  intro y
+  simp only [undoRes, applyRes, setNeigh_get, setBr_get]
+  by_cases h1 : y = n.n1
+  · subst h1
+    simp [d1, Ne.symm d2, Ne.symm d4, g1, List.set_set, set_same _ _ _ k12, set_same _ _ _ b1]
+  · by_cases h2 : y = n.n2
+    · subst h2
+      simp [Ne.symm d1, Ne.symm d3, Ne.symm d5, g2, List.set_set, set_same _ _ _ k22, set_same _ _ _ b2]
+    · by_cases h3 : y = n.n12
+      · subst h3
+        simp [d2, d3, Ne.symm d6, g12, List.set_set, set_same _ _ _ k1]
+      · by_cases h4 : y = x
+        · subst h4
+          simp [d4, d5, d6, gx, List.set_set, set_same _ _ _ k2]
+        · simp [h1, h2, h3, h4]
+
+
+theorem edges_back (g : GHeap) (n : GNNI) (x : Nat) (i12 i1 i22 i2 e1 e2 ec : Nat) (E1 E2 EC : GEdge) (inv : Bool)
+    (ge1 : g.edges[e1]? = some E1) (ge2 : g.edges[e2]? = some E2) (gec : g.edges[ec]? = some EC)
+    (d1 : n.n1 ≠ n.n2) (d2 : n.n12 ≠ n.n1) (d3 : n.n12 ≠ n.n2) (d4 : x ≠ n.n1) (d5 : x ≠ n.n2)
+    (c1 : e1 ≠ e2) (c2 : ec ≠ e1) (c3 : ec ≠ e2)
+    (j1 : (E1.left = n.n1 ∧ E1.right = n.n12) ∨ (E1.left = n.n12 ∧ E1.right = n.n1))
+    (j2 : (E2.left = n.n2 ∧ E2.right = x) ∨ (E2.left = x ∧ E2.right = n.n2)) :
+    (undoRes (applyRes g n x i12 i1 i22 i2 e1 e2 ec inv) n x i12 i2 i22 i1 e2 e1 ec inv).edges = g.edges := by
+  apply List.ext_getElem?
+  intro y
+  simp only [undoRes, applyRes]
+  cases inv <;> simp only [reattach_get, inverse_get, if_true, if_false, Bool.false_eq_true]
+  all_goals
+    by_cases h1 : y = e1
+    · subst h1
+      rcases j1 with ⟨a, b⟩ | ⟨a, b⟩ <;> cases E1 <;> simp_all [Ne.symm c2]
+    · by_cases h2 : y = e2
+      · subst h2
+        rcases j2 with ⟨a, b⟩ | ⟨a, b⟩ <;> cases E2 <;> simp_all [Ne.symm c1, Ne.symm c3]
+      · by_cases h3 : y = ec
+        · subst h3; cases EC; simp_all
+        · simp [h1, h2, h3]
+
+
+
 end Gotree.C17
